@@ -125,3 +125,47 @@ Proof.
   cbv zeta. rewrite N2Z.id. replace (Z.to_nat (Z.of_N (f_count i))) with (N.to_nat (f_count i)) by lia.
   reflexivity.
 Qed.
+
+(* ---- Uint24: the read expression `uint64(rest[0])<<16 | uint64(rest[1])<<8 | uint64(rest[2])` and its guards ---- *)
+Lemma lor_add_low hi lo k : 0 <= hi -> 0 <= k -> 0 <= lo < 2 ^ k -> Z.lor (hi * 2 ^ k) lo = hi * 2 ^ k + lo.
+Proof.
+  intros Hh Hk Hl.
+  assert (Hland : Z.land (hi * 2 ^ k) lo = 0).
+  { apply Z.bits_inj'. intros n Hn. rewrite Z.land_spec, Z.bits_0.
+    destruct (Z.ltb_spec n k) as [Hlt|Hge].
+    - rewrite Z.mul_pow2_bits_low by lia. reflexivity.
+    - destruct (Z.eqb_spec lo 0) as [->|Hnz]; [rewrite Z.bits_0; apply andb_false_r|].
+      rewrite (Z.bits_above_log2 lo n); [apply andb_false_r|lia|].
+      apply Z.log2_lt_pow2; [lia|]. apply Z.lt_le_trans with (2 ^ k); [lia|].
+      apply Z.pow_le_mono_r; lia. }
+  rewrite <- Z.lxor_lor by exact Hland. symmetry. apply Z.add_nocarry_lxor. exact Hland.
+Qed.
+
+Lemma uint24_value_meaning (b0 b1 b2 : byte) (tail : bytes) :
+  uint24_value_gen (bzs (b0 :: b1 :: b2 :: tail)) = Z.of_N (be_dec [b0; b1; b2]).
+Proof.
+  unfold uint24_value_gen, bzs, idx. cbn [map nth Z.ltb Z.compare Z.to_nat Pos.to_nat Pos.iter_op Nat.add].
+  change (Z.to_nat 1) with 1%nat. change (Z.to_nat 2) with 2%nat. cbn [nth].
+  pose proof (b2n_range b0) as H0. pose proof (b2n_range b1) as H1. pose proof (b2n_range b2) as H2.
+  set (x0 := Z.of_N (b2n b0)). set (x1 := Z.of_N (b2n b1)). set (x2 := Z.of_N (b2n b2)).
+  assert (Hx0 : 0 <= x0 < 256) by (unfold x0; lia).
+  assert (Hx1 : 0 <= x1 < 256) by (unfold x1; lia).
+  assert (Hx2 : 0 <= x2 < 256) by (unfold x2; lia).
+  assert (Hs0 : shlu x0 16 = x0 * 2 ^ 16).
+  { unfold shlu. change (16 <? 64) with true. cbv iota. apply wrapu_id. unfold in_u64. rewrite two64_eq.
+    assert (two63 = 9223372036854775808) by reflexivity. change (2 ^ 16) with 65536. lia. }
+  assert (Hs1 : shlu x1 8 = x1 * 2 ^ 8).
+  { unfold shlu. change (8 <? 64) with true. cbv iota. apply wrapu_id. unfold in_u64. rewrite two64_eq.
+    assert (two63 = 9223372036854775808) by reflexivity. change (2 ^ 8) with 256. lia. }
+  change (Pos.to_nat 1) with 1%nat. change (Pos.to_nat 2) with 2%nat. cbv iota.
+  rewrite Hs0, Hs1.
+  rewrite (lor_add_low x0 (x1 * 2 ^ 8) 16) by (change (2 ^ 8) with 256; change (2 ^ 16) with 65536; lia).
+  replace (x0 * 2 ^ 16 + x1 * 2 ^ 8) with ((x0 * 256 + x1) * 2 ^ 8) by (change (2 ^ 16) with 65536; change (2 ^ 8) with 256; lia).
+  rewrite lor_add_low by (change (2 ^ 8) with 256; lia).
+  unfold be_dec. cbn [be_dec_acc]. fold x0 x1 x2. change (2 ^ 8) with 256.
+  unfold x0, x1, x2. lia.
+Qed.
+
+Lemma uint24_guards_meaning (len v : Z) :
+  uint24_truncated_gen len = (len <? 3) /\ uint24_overflow_gen v = (v >? 16777215).
+Proof. split; reflexivity. Qed.
